@@ -71,6 +71,110 @@ def d1_root(chk: Check) -> None:
         raise AnalysisError("root replacement sites not found")
 
 
+def d1b_result_lands_at_target(chk: Check) -> None:
+    """"Each node the path matches becomes the policy-defined merge of its
+    old content with the right-hand document."  The mergers change the left
+    operand in place only in the accumulating modes; the replacing modes
+    (RIGHT, and UNIQUE for arrays) *return another object*.  At the document
+    root the insertion routine re-binds `self.data`; below the root it must
+    put the returned object in the target's place -- otherwise a merge
+    aimed at a sub-path with a replacing policy silently changes nothing.
+
+    Decided per insertion routine: the statement after the mergers is
+    `if <merge point>.is_root: self.data = M` followed, on the other arm, by
+    a store of M at the target's coordinates under `M is not <lhs>`; and
+    merge_with hands each routine the coordinates of the target it
+    dispatches on."""
+    prog = chk.prog
+    chk.rule("C11-D1b", "below the document root a merge result that is "
+             "not the left operand itself is stored at the target's "
+             "(parent, parentref); merge_with supplies those coordinates",
+             floor=6)
+    mw = prog.func("Merger.merge_with")
+    for name in ("Merger._insert_dict", "Merger._insert_list",
+                 "Merger._insert_set"):
+        fi = prog.func(name)
+        ins, lhs = fi.params()[1], fi.params()[2]
+        roots = [n for n in walk_local(fi.node) if isinstance(n, ast.If) and
+                 src(n.test) == ins + ".is_root"]
+        text = fi.short + ": result of the merger"
+        if len(roots) != 1:
+            chk.fail("C11-D1b", fi, fi.node, text,
+                     "no `if <merge point>.is_root` decides where the "
+                     "result of the merger is stored")
+            continue
+        r = roots[0]
+        m = None
+        for st in r.body:
+            if isinstance(st, ast.Assign) and \
+                    src(st.targets[0]) == "self.data":
+                m = src(st.value)
+        stored = None
+        if m is not None and len(r.orelse) == 1 and \
+                isinstance(r.orelse[0], ast.If):
+            e = r.orelse[0]
+            t = src(e.test).replace(" ", "")
+            if t in ("{}isnot{}".format(m, lhs),
+                     "{}isnot{}".format(lhs, m)) and not e.orelse:
+                for c in [x for st in e.body for x in ast.walk(st)]:
+                    if isinstance(c, ast.Call) and len(c.args) == 2 and \
+                            src(c.args[1]) == m and \
+                            src(c.args[0]) in fi.params():
+                        stored = (c, src(c.args[0]))
+                    if isinstance(c, ast.Subscript) and \
+                            isinstance(c.ctx, ast.Store) and \
+                            ".parent" in src(c.value) and \
+                            ".parentref" in src(c.slice):
+                        stored = (c, src(c.value).split(".")[0])
+        if stored is None:
+            chk.fail("C11-D1b", fi, r, text,
+                     "below the root the object returned by the merger is "
+                     "dropped: with a replacing policy (RIGHT, UNIQUE) the "
+                     "target keeps its old content and no error is raised")
+            continue
+        call, tparam = stored
+        ok = True
+        if isinstance(call, ast.Call):
+            # the helper must write <target>.parent[<target>.parentref]
+            from sa.model import resolve_call
+            cands = resolve_call(prog, fi, call)
+            ok = bool(cands) and all(any(
+                isinstance(x, ast.Subscript) and
+                isinstance(x.ctx, ast.Store) and
+                src(x.value) == c_.params()[0] + ".parent" and
+                src(x.slice) == c_.params()[0] + ".parentref" and
+                isinstance(parent(x), ast.Assign) and
+                src(parent(x).value) == c_.params()[1]
+                for x in walk_local(c_.node)) for c_ in cands)
+        if ok:
+            chk.ok("C11-D1b", fi, call, text,
+                   "stored at `{0}.parent[{0}.parentref]` when it is not "
+                   "the left operand".format(tparam))
+        else:
+            chk.fail("C11-D1b", fi, call, text,
+                     "the helper given the result does not store it at the "
+                     "target's (parent, parentref)")
+        # merge_with supplies the coordinates it iterates
+        idx = fi.params().index(tparam) - 1
+        for c in walk_local(mw.node):
+            if isinstance(c, ast.Call) and \
+                    src(c.func) == "self." + fi.node.name:
+                loop = [a for a in ancestors(c) if isinstance(a, ast.For)]
+                coord = src(loop[0].target) if loop else None
+                arg = c.args[idx] if idx < len(c.args) else next(
+                    (k.value for k in c.keywords if k.arg == tparam), None)
+                t2 = "merge_with -> {}".format(fi.node.name)
+                if arg is not None and src(arg) == coord:
+                    chk.ok("C11-D1b", mw, c, t2,
+                           "given the coordinates `{}`".format(coord))
+                else:
+                    chk.fail("C11-D1b", mw, c, t2,
+                             "the routine is not given the coordinates of "
+                             "the target it merges into ({}): the result "
+                             "cannot be stored".format(
+                                 src(arg) if arg is not None else "omitted"))
+
+
 def d2_targets(chk: Check) -> None:
     prog = chk.prog
     chk.rule("C11-D2a", "merge targets are the nodes of "
@@ -164,8 +268,11 @@ def d2_targets(chk: Check) -> None:
                      "root is a {}: it would be silently ignored".format(k))
             continue
         args = got[got.index("(") + 1:].rstrip(")").split(", ")
+        # the right document is the last argument, or the last before the
+        # coordinates of the target (C11-D1b judges those)
+        coord = src(loop.target)
         ok = routine in got and args[0] == ipoint and args[1] == tnode and \
-            args[-1] == r
+            (args[-1] == r or (args[-1] == coord and args[-2] == r))
         if ok:
             chk.ok("C11-D2b", mw, loop, text, got[:80])
         else:
@@ -480,6 +587,7 @@ def d4_no_partial(chk: Check) -> None:
 
 def run(chk: Check) -> None:
     d1_root(chk)
+    d1b_result_lands_at_target(chk)
     d2_targets(chk)
     d3_rebase(chk)
     d3b_strip(chk)
